@@ -1,0 +1,27 @@
+"""
+add-only observation hooks for external trace validation.
+
+with the environment variable NREL_HIVE_VERIF unset (the default) ENABLED is False and every call
+site in the simulator is a single false `if`. with NREL_HIVE_VERIF=1 and a sink installed, the
+simulator calls `emit(event, **fields)` at the linearization points of the step pipeline, right after
+the new (immutable) state exists and before the next action can observe it. the sink only receives
+references to immutable values; it must not mutate them.
+"""
+import os
+from typing import Any, Callable, Optional
+
+ENABLED: bool = os.environ.get("NREL_HIVE_VERIF", "") == "1"
+
+_sink: Optional[Callable[..., Any]] = None
+
+
+def install(sink: Optional[Callable[..., Any]]) -> None:
+    """install (or, with None, remove) the function receiving events"""
+    global _sink
+    _sink = sink
+
+
+def emit(event: str, **fields: Any) -> None:
+    """deliver one event to the sink, if any"""
+    if _sink is not None:
+        _sink(event, **fields)
